@@ -77,6 +77,13 @@ def _validate(trace_module, trace_path, shards=None, timeout=900):
 # ============================================================================ C42
 _VOCAB_Q = dict(F=["foo", "Foo", "foo_", "foo_1", "get_foo", "set_foo", "proto_reflect", "descriptor"],
                 O=["Foo", "get_foo", "bar"], N=["Foo"], E=[], kinds=["f", "m"], any=2, plain=3)
+# package-level identifiers (MC_GoNamesPkg): Default_<Msg>_<Field> constants, enum value constants, enum maps
+_PKG_Q = dict(PFieldVocab=["foo", "foo__foo"], PNestedVocab=["Foo", "foo"], PNFieldVocab=["foo", "foo__foo"], PEnumVocab=["Foo", "Bar"],
+              PValueVocab=["Foo", "builder", "Foo_name", "Foo_case", "Foo_builder"], PExtVocab=["foo"], MaxF=2)
+_PKG_T = dict(PFieldVocab=["foo", "Foo", "foo_", "foo__foo", "foo_Foo", "Foo_Foo", "descriptor"], PNestedVocab=["Foo", "foo", "Foo_", "Foo_Foo", "_foo"],
+              PNFieldVocab=["foo", "Foo", "foo__foo", "reset", "x"], PEnumVocab=["Foo", "Bar", "X_foo"],
+              PValueVocab=["Foo", "foo", "builder", "Foo_name", "Foo_value", "Foo_case", "Foo_builder", "Bar_not_set_case", "Foo_"],
+              PExtVocab=["foo", "Foo", "x"], MaxF=2)
 _VOCAB_T = dict(F=["foo", "Foo", "_foo", "X_foo", "foo_", "foo_1", "foo_2", "get_foo", "GetFoo", "set_foo", "has_foo", "clear_foo",
                    "which_foo", "build", "reset", "descriptor", "proto_reflect", "proto_message"],
                 O=["foo", "Foo", "get_foo", "has_foo", "which_foo", "bar"], N=["Foo", "Foo_", "_foo"], E=["X_foo"], kinds=["f", "m", "r"], any=2, plain=3)
@@ -85,9 +92,14 @@ _VOCAB_T = dict(F=["foo", "Foo", "_foo", "X_foo", "foo_", "foo_1", "foo_2", "get
 def _msg_readable(ev):
     return dict(level=ev.get("level"),
                 field_names=[_txt(f["n"]) for f in ev.get("fields", [])],
-                field_kinds=["oneof-member" if f["mem"] else "repeated" if f["rep"] else "optional" for f in ev.get("fields", [])],
+                field_kinds=[("oneof-member" if f["mem"] else "repeated" if f["rep"] else "optional") + (" default" if f.get("dflt") else "")
+                             for f in ev.get("fields", [])],
                 oneof_name=_txt(ev.get("oname", [])),
-                nested_names=[_txt(x) for x in ev.get("nested", [])] + [_txt(x) for x in ev.get("enums", [])])
+                nested_names=[_txt(x) for x in ev.get("nested", [])] + [_txt(x) for x in ev.get("enums", [])],
+                nested_field_names=[[_txt(y) for y in x] for x in ev.get("nfields", [])],
+                enum_value_names=[[_txt(y) for y in x] for x in ev.get("evals", [])],
+                extension_names=[_txt(x) for x in ev.get("exts", [])],
+                toplevel_enum=[[_txt(t["n"])] + [_txt(y) for y in t["vals"]] for t in ev.get("tenum", [])])
 
 
 def _msg_failures(res, ev, why, note, extra):
@@ -109,7 +121,9 @@ def _c42_key(ev):
     o = ev.get("out", {})
     if ev["op"] == "msgnames":
         kinds = "".join("m" if f["mem"] else "r" if f["rep"] else "f" for f in ev["fields"])
-        return ["msgnames", ev["level"], kinds, len(ev.get("nested", [])) + len(ev.get("enums", [])), sorted(o.get("dups", []))[:2]]
+        return ["msgnames", ev["level"], kinds, len(ev.get("nested", [])) + len(ev.get("enums", [])),
+                any(f.get("dflt") for f in ev["fields"]), sum(len(x) for x in ev.get("nfields", [])), sum(len(x) for x in ev.get("evals", [])),
+                sorted(o.get("dups", []))[:2]]
     if ev["op"] == "fieldmask":
         return ["fieldmask", len(ev["s"]), o.get("acc")]
     return [ev["op"], len(ev["s"]), len(o.get("r", [])) - len(ev["s"]), o.get("ident")]
@@ -129,22 +143,42 @@ def c42(res, tier, seed):
                                       invariants=["Laws", "KeywordLaws"], emit="EmitAll"), emit_to=t_san, workers=1, timeout=1500),
     ]
     msg_tours = []
-    level_sets = [("open", "hybrid", "opaque")] if q else [("open",), ("hybrid",), ("opaque",)]   # thorough: one JVM per level
-    for lvs in level_sets:
-        tp = os.path.join(scratch(), "c42-msg-%s.tour" % "-".join(lvs))
+    pv = _PKG_Q if q else _PKG_T
+    msg_consts = lambda lvs: {"FieldVocab": _S(v["F"]), "OneofVocab": _S(v["O"]), "NestedVocab": _S(v["N"]), "EnumVocab": _S(v["E"]),
+                              "Levels": _S(lvs), "KindsAny": _S(v["kinds"]), "MaxAny": v["any"], "MaxPlain": v["plain"]}
+    pkg_consts = dict({k: _S(x) for k, x in pv.items() if k != "MaxF"}, Levels=_S(["open", "hybrid", "opaque"]), MaxF=pv["MaxF"])
+    lab_msg = ("message declarations over the collision vocabulary, API level %s: well-formedness, reserved names avoided, "
+               "names are identifiers, every predicted repetition explained by a known naming defect")
+    lab_pkg = ("package-level identifiers of message declarations (Default_<Message>_<Field> constants of M and of a nested message, enum "
+               "value constants and enum maps of a nested and of a top-level enum, E_ extension variables, File_ variable) over a collision "
+               "vocabulary x 3 API levels: every predicted repetition has a named cause, Default_ collisions = ambiguity of the '_'-joined "
+               "pair, the extended model is conservative over the message-level one")
+    if q:
+        # one JVM for both enumerations of declarations (MC_GoNamesDecl = disjoint union of MC_GoNamesMsg and MC_GoNamesPkg)
+        tp = os.path.join(scratch(), "c42-decl.tour")
         msg_tours.append(tp)
-        jobs.append(lambda lvs=lvs, tp=tp: tlc("MC_GoNamesMsg", cfg(
-            {"FieldVocab": _S(v["F"]), "OneofVocab": _S(v["O"]), "NestedVocab": _S(v["N"]), "EnumVocab": _S(v["E"]),
-             "Levels": _S(lvs), "KindsAny": _S(v["kinds"]), "MaxAny": v["any"], "MaxPlain": v["plain"]}, invariants=["Laws"], emit="Emit"),
-            emit_to=tp, workers=1, timeout=3000))
+        jobs.append(lambda: tlc("MC_GoNamesDecl", cfg(dict(msg_consts(("open", "hybrid", "opaque")), **pkg_consts), invariants=["Laws"], emit="Emit"),
+                                emit_to=tp, workers=1, timeout=3000))
+        labels = [lab_msg % "open/hybrid/opaque" + "; " + lab_pkg]
+    else:
+        labels = []
+        for lvs in [("open",), ("hybrid",), ("opaque",)]:          # thorough: one JVM per level
+            tp = os.path.join(scratch(), "c42-msg-%s.tour" % "-".join(lvs))
+            msg_tours.append(tp)
+            jobs.append(lambda lvs=lvs, tp=tp: tlc("MC_GoNamesMsg", cfg(msg_consts(lvs), invariants=["Laws"], emit="Emit"),
+                                                   emit_to=tp, workers=1, timeout=3000))
+            labels.append(lab_msg % "/".join(lvs))
+        t_pkg = os.path.join(scratch(), "c42-pkg.tour")
+        msg_tours.append(t_pkg)
+        jobs.append(lambda: tlc("MC_GoNamesPkg", cfg(pkg_consts, invariants=["Laws"], emit="Emit"), emit_to=t_pkg, workers=1, timeout=3000))
+        labels.append(lab_pkg)
     runs = _parallel(jobs)
     res.add_tlc(runs[0], "all strings over {a b A _ 1 .} up to the bound: GoCamelCase loop = local definition, exported-ness on "
                          "full names, idempotence; snake(camel(s)) = s characterised; FieldMask path round trip")
     res.add_tlc(runs[1], "all rune strings over {g o A _ 1 - e-acute arabic-3 superscript-2 snowman rawbyte} up to the bound + all "
                          "keyword variants: GoSanitized yields a non-keyword Go identifier and keeps good identifiers")
-    for r, lvs in zip(runs[2:], level_sets):
-        res.add_tlc(r, "message declarations over the collision vocabulary, API level %s: well-formedness, reserved names avoided, "
-                       "names are identifiers, every predicted repetition explained by a known naming defect" % "/".join(lvs))
+    for r, lab in zip(runs[2:], labels):
+        res.add_tlc(r, lab)
     res.exhaustive = True
 
     # ---- S->C: replay the tours
@@ -242,11 +276,14 @@ def c42(res, tier, seed):
     res.rule = ("tour: every string up to the bound over two corner alphabets (ASCII identifier symbols; letters/digits/keyword letters/"
                 "non-ASCII classes/raw byte) through GoCamelCase, GoSanitized, JSONCamelCase/JSONSnakeCase + protojson FieldMask, and every "
                 "field list (ordered, <= 2 fields of any kind or 3 plain fields over a collision vocabulary) x oneof name x nested type "
-                "x API level through protoc-gen-go, identifiers read back from the emitted file with go/parser; distinct = "
-                "(op, length, result class) resp. (level, field kinds, nested, repeated identifiers); driver: random identifiers, "
-                "random Unicode strings, random declarations of up to 5 fields validated by Trace_GoNames")
+                "x API level, and every declaration of the package-level vocabulary (<= 2 defaulted fields x nested message with a "
+                "defaulted field | nested enum with a named value) x API level through protoc-gen-go, identifiers read back from the emitted "
+                "file with go/parser; distinct = (op, length, result class) resp. (level, field kinds, nested, defaults, nested fields, enum "
+                "values, repeated identifiers); driver: random identifiers, random Unicode strings, random declarations of up to 5 fields "
+                "(defaults, nested fields, enum values) validated by Trace_GoNames")
     res.assumptions += ["Unicode class (letter / decimal digit / other) of non-ASCII runes is taken from Go's unicode tables as an input",
-                        "message naming is exercised on one message M with proto2 int32 fields, at most one oneof, nested types without fields"]
+                        "message naming is exercised on one message M with proto2 int32 fields, at most one oneof, nested messages with plain defaulted "
+                        "fields, nested enums; collisions between different top-level declarations of a file are outside the model"]
 
 
 # ============================================================================ C40
@@ -268,16 +305,16 @@ def c40(res, tier, seed):
     sites = ["file", "message", "field", "oneof", "enum", "value", "service", "method", "range"]
     if q:
         # custom-option request shapes: every shape, every in-process plan of two runs (fresh processes see them in the driver)
-        configs = [dict(Modes=["in", "fresh"], Perms="{0, 1}", MaxPlan=2, Bases="{0, 13, 31}", ShapeSites=sites, ShapeModes=["in"])]
+        configs = [dict(Modes=["in", "fresh"], Perms="{0, 1}", MaxPlan=2, Bases="{0, 13, 31}", ShapeSites=sites, ShapeModes=["in"], ShapePerms="{0, 1}")]
     else:
         bases = "{0, 2, 3, 4, 9, 10, 13, 14, 20, 27, 28, 30, 31, 39, 58, 62}"
-        configs = [dict(Modes=["in", "fresh"], Perms="{0, 1, 2}", MaxPlan=2, Bases=bases, ShapeSites=["file", "field", "method"],
-                        ShapeModes=["in", "fresh"]),
-                   dict(Modes=["in"], Perms="{0, 1, 2}", MaxPlan=3, Bases=bases, ShapeSites=sites, ShapeModes=["in"])]
+        configs = [dict(Modes=["in", "fresh"], Perms="{0, 1, 2}", MaxPlan=2, Bases=bases, ShapeSites=["file", "method"],
+                        ShapeModes=["in", "fresh"], ShapePerms="{0, 1}"),
+                   dict(Modes=["in"], Perms="{0, 1, 2}", MaxPlan=3, Bases=bases, ShapeSites=sites, ShapeModes=["in"], ShapePerms="{0, 1}")]
     for c in configs:
         r = tlc("MC_GenHistory", cfg({"Modes": _S(c["Modes"]), "Perms": c["Perms"], "Digs": "{1, 2}", "MaxPlan": c["MaxPlan"],
                                       "Bases": c["Bases"], "Par0": seed % 32, "ShapeSites": _S(c["ShapeSites"]),
-                                      "ShapeModes": _S(c["ShapeModes"])}, invariants=["Laws"], emit="Emit"),
+                                      "ShapeModes": _S(c["ShapeModes"]), "ShapePerms": c["ShapePerms"]}, invariants=["Laws"], emit="Emit"),
                 emit_to=tour, workers=1, timeout=1500)
         res.add_tlc(r, "abstract possibly-nondeterministic generator: every plan of <= %d runs over modes %s x permutations %s with every "
                        "combination of observed digests; memo-table = relational definition of determinism, prefix closure, sensitivity"
@@ -317,9 +354,11 @@ def c40(res, tier, seed):
     res.traces += total
     res.rule = ("tour: every plan of <= 2 generator runs over {in-process, fresh process} x permutations of file_to_generate (as listed, "
                 "reversed%s) on %d linked file sets with rotating parameter combinations (API level x import-path mode x annotate_code), "
-                "response and per-file digests compared; driver: random plans of 6-12 runs (1/6 in fresh processes) over all 69 linked "
-                "file sets and random schemas x 32 parameter combinations, histories validated by Trace_Gen; distinct = (file set, "
-                "parameters, plan shape, error classes)" % ("" if q else ", rotated; plus every in-process plan of <= 3 runs", 3 if q else 16))
+                "response and per-file digests compared; the same for every custom-option request shape of GenRequest (9 option sites x 12 "
+                "payload/entry-count combinations x same-file/imported declaration; quick: in-process plans of 2 runs; thorough: fresh processes "
+                "for the sites file/method, in-process plans of 3 runs for all); driver: random plans of 6-12 runs (1/6 in fresh "
+                "processes) over all 69 linked file sets, random schemas and option shapes x 32 parameter combinations, histories validated by "
+                "Trace_Gen; distinct = (file set | option shape, parameters, plan shape, error classes)" % ("" if q else ", rotated; plus every in-process plan of <= 3 runs", 3 if q else 16))
     res.assumptions += ["nondeterminism can only be OBSERVED (Go randomises map iteration per range statement and per process); "
                         "the specification cannot force an iteration order, hence level exploration",
                         "requests the plugin refuses before producing a response (no go_package, MessageSet without protolegacy) are "
